@@ -115,6 +115,8 @@ func forgetFragment() fragmentationContext {
 }
 
 func (c *Conversation) receiveFragment(beforeCtx fragmentationContext, data ValidMessage) (fragmentationContext, error) {
+	previousInstanceTag := c.theirInstanceTag
+
 	fragBody, ignore, ok1 := c.parseFragmentPrefix(data)
 	resultData, ix, l, ok2 := parseFragment(fragBody)
 
@@ -124,6 +126,8 @@ func (c *Conversation) receiveFragment(beforeCtx fragmentationContext, data Vali
 	}
 
 	if !ok1 || !ok2 {
+		// a fragment that is rejected must not bind us to the instance that sent it
+		c.theirInstanceTag = previousInstanceTag
 		return beforeCtx, newOtrError("invalid OTR fragment")
 	}
 
